@@ -67,6 +67,10 @@ class ReadSets:
             return set()
         env = {"self": {cls.name}}
         reads = self.body_reads(f.node, env, stack + (key,), self_cls=cls)
+        if f.is_property:
+            # a lazily filled cache field read inside its own accessor is labelled as such (`C._specifier@specifier`): only that way of
+            # reading it can be whitelisted; a direct read or a dataclasses.replace copy of the same field keeps the plain label
+            reads = {r + "@" + mname if r.endswith("._" + mname) else r for r in reads}
         self.memo[key] = reads
         return reads
 
@@ -90,6 +94,13 @@ class ReadSets:
         reads = set()
         env = dict(env)
         # local typing: loop / comprehension targets over typed receivers
+        # local aliases: `x = <typed receiver>` (flow-insensitive, two rounds for chains)
+        for _ in range(2):
+            for n in ast.walk(node):
+                if isinstance(n, ast.Assign) and len(n.targets) == 1 and isinstance(n.targets[0], ast.Name):
+                    ts = self.receiver_types(n.value, env, self_cls)
+                    if ts:
+                        env[n.targets[0].id] = env.get(n.targets[0].id, set()) | ts
         for n in ast.walk(node):
             it, tgt = None, None
             if isinstance(n, (ast.For, ast.comprehension)):
@@ -106,6 +117,35 @@ class ReadSets:
                 recv, callee = n.args[0], DUNDER_OF_BUILTIN[n.func.id]
             elif isinstance(n, ast.FormattedValue):
                 recv, callee = n.value, "__str__"
+            if isinstance(n, ast.Call) and isinstance(n.func, (ast.Name, ast.Attribute)):
+                fname = n.func.id if isinstance(n.func, ast.Name) else n.func.attr
+                if fname == "replace" and n.args and not (isinstance(n.func, ast.Attribute) and not (isinstance(n.func.value, ast.Name) and n.func.value.id == "dataclasses")):
+                    # dataclasses.replace(x, **changes) reads every init field of x that is not overridden - the uncompared ones included
+                    over = {k.arg for k in n.keywords if k.arg}
+                    for t in self.receiver_types(n.args[0], env, self_cls):
+                        for c in self.family(t):
+                            for fld in self.uncompared_of(c) - over:
+                                reads.add(f"{c.name}.{fld}")
+                elif isinstance(n.func, ast.Name):
+                    # a call of a module-level function with typed arguments: its reads through those parameters are reads of the caller
+                    for g in self.functions_named(fname):
+                        key = ("<fn>", g.qualname)
+                        if key in stack or len(stack) > 16:
+                            continue
+                        a = g.node.args
+                        params = [p.arg for p in a.posonlyargs + a.args]
+                        env2 = {}
+                        for p, arg in zip(params, n.args):
+                            ts = self.receiver_types(arg, env, self_cls)
+                            if ts:
+                                env2[p] = ts
+                        for k in n.keywords:
+                            if k.arg in params:
+                                ts = self.receiver_types(k.value, env, self_cls)
+                                if ts:
+                                    env2[k.arg] = ts
+                        if env2:
+                            reads |= self.body_reads(g.node, env2, stack + (key,))
             if recv is None:
                 continue
             for t in self.receiver_types(recv, env, self_cls):
@@ -114,6 +154,9 @@ class ReadSets:
                         reads.add(f"{c.name}.{callee}")
                     reads |= self.method_reads(c, callee, stack)
         return reads
+
+    def functions_named(self, name):
+        return [m.functions[name] for m in self.index.modules.values() if name in m.functions]
 
     # ---- memoised functions
     def memoised(self):
